@@ -6,6 +6,7 @@ mod c07;
 mod c08;
 mod c10;
 mod c12;
+mod c13;
 mod c16;
 mod c17;
 
@@ -18,6 +19,7 @@ fn main() {
         "c08" => c08::run(&rest),
         "c10" => c10::run(&rest),
         "c12" => c12::run(&rest),
+        "c13" => c13::run(&rest),
         "c16" => c16::run(&rest),
         "c17" => c17::run(&rest),
         _ => {
